@@ -110,6 +110,9 @@ def relay_replay_plan(ob):
         # early bytes on both sides, only behind the upstream's reply, only behind the client's request
         cases = [{'driver': 'handover', 'args': {'client_early': c, 'server_early': v}} for c, v in ((True, True), (False, True), (True, False))]
         return 'relay', cases, lambda o: o.get('handover_complete') is False
+    if (ob.target or '') == 'copy_bidi (hand-over)' and ob.label.startswith('C16/handover/'):
+        cases = [{'driver': 'handover', 'args': {'client_early': c, 'server_early': v}} for c, v in ((True, False), (False, True), (True, True))]
+        return 'relay', cases, lambda o: o.get('handover_complete') is True and o.get('early_bytes_counted') is False
     if f is not None and (ob.target or '') == 'copy_half abort' and ob.label.startswith('C16/relay/byte-counter-never'):
         # the destination takes the first piece and goes away: the second piece is read from the source but cannot be delivered
         cases = [{'driver': 'copy_half', 'args': {'source': '68656c6c6f776f726c6421', 'pieces': [5, 6], 'buffer_size': 16, 'counted_before': 0, 'dst_closes_after': 5}},
@@ -183,10 +186,26 @@ def check_handover(ck):
         ctx.st.trace.append(('relay-starts',))
         from engine import DIVERGE
         return DIVERGE
+    # the connection's per-direction statistics (Arc<ContextStatistics> in its properties), with whatever was counted so far
+    stf = ck.si.structs.get('ContextStatistics', ['read_bytes', 'read_frames', 'last_read'])
+    pf = ck.si.structs.get('ContextProps', [])
+    counted0, stat_cells = {}, {}
+    for side in ('client', 'server'):
+        counted0[side] = z3.BitVec('%s_bytes_counted_before' % side, 64)
+        ex.assume(st, z3.ULT(counted0[side], BV(1 << 62, 64)))
+        stat_cells[side] = st.alloc(Agg('ContextStatistics', {stf.index('read_bytes'): Agg('Atomic', {0: Int(counted0[side], 64)}),
+                                                              stf.index('read_frames'): Agg('Atomic', {0: Int(BV(0, 64), 64)})}))
+    props_cell = None
+    if 'client_stat' in pf and 'server_stat' in pf:
+        props_cell = st.alloc(Agg('ContextProps', dict([(pf.index('client_stat'), Ref(stat_cells['client'], ())), (pf.index('server_stat'), Ref(stat_cells['server'], ()))] +
+                                                        [(i, Opaque(n_, 'props_' + n_)) for i, n_ in enumerate(pf) if n_ not in ('client_stat', 'server_stat')])))
     for rx, f in ((r'Context::take_streams$', take_streams), (r'Context::take_frames$', lambda ctx: C.mk_option(ctx.ex, None)),
                   (r'has_raw_fd$', has_raw_fd), (r'^copy_half::<', relay_starts)):
         ex.overrides.append((re.compile(rx), f))
-    ex.inputs = {'client_sent': cin, 'server_sent': sin, 'client_bytes_consumed_by_handshake': cpos, 'server_bytes_consumed_by_handshake': spos}
+    if props_cell is not None:
+        ex.overrides.append((re.compile(r'Context::props$'), lambda ctx: Ref(props_cell, ())))
+    ex.inputs = {'client_sent': cin, 'server_sent': sin, 'client_bytes_consumed_by_handshake': cpos, 'server_bytes_consumed_by_handshake': spos,
+                 'client_bytes_counted_before': counted0['client'], 'server_bytes_counted_before': counted0['server']}
     ctx = Ref(st.alloc(Opaque('tokio::sync::RwLock<context::Context>', 'ctx')), ())
     params = Ref(st.alloc(Opaque('IoParams', 'params')), ())
     outs = run_async(ex, st, fn, [ctx, params])
@@ -200,6 +219,12 @@ def check_handover(ck):
         for name, me, peer, inp, pos0 in (('client', c, s, cin, cpos), ('server', s, c, sin, spos)):
             # exactly once: what the hand-over has already written to the other side is no longer in front of the relay's reader
             ex.prove(o, 'C01/handover/bytes-forwarded-by-the-hand-over-are-not-delivered-again', me.pos == pos0 + peer.out.len)
+            # "its per-direction byte counters equal the payload bytes actually relayed" -- early data included: what the hand-over
+            # forwarded for this direction is in this direction's counter when the relay proper starts
+            if props_cell is not None:
+                stv = o.mem[stat_cells[name]]
+                cnt = stv.fields[stf.index('read_bytes')].fields[0].t
+                ex.prove(o, 'C16/handover/early-data-forwarded-by-the-hand-over-is-counted', cnt == counted0[name] + peer.out.len)
             e = lost.get(name)
             if e is None:
                 # the reader was not taken apart on this path: nothing may have been lost
